@@ -60,7 +60,7 @@ func (hs *clientHandshakeStateTLS13) handshake() error {
 	}
 
 	// Consistency check on the presence of a keyShare and its parameters.
-	if hs.keyShareKeys == nil || hs.keyShareKeys.ecdhe == nil || len(hs.hello.keyShares) == 0 {
+	if hs.keyShareKeys == nil || (hs.keyShareKeys.ecdhe == nil && hs.keyShareKeys.mlkemEcdhe == nil) || len(hs.hello.keyShares) == 0 { // [uTLS] a hybrid share alone is enough
 		return c.sendAlert(alertInternalError)
 	}
 
@@ -598,7 +598,30 @@ func (hs *clientHandshakeStateTLS13) establishHandshakeKeys() error {
 		}
 		ecdhePeerData = hs.serverHello.serverShare.data[:x25519PublicKeySize]
 	}
-	sharedKey, err := getSharedKey(ecdhePeerData, hs.keyShareKeys.ecdhe)
+	// Use the private key that belongs to the share the server selected: the first
+	// classical share is in ecdhe, further ones in extraEcdhe, and the X25519 part
+	// of a uTLS-built hybrid share in mlkemEcdhe.
+	ecdheKey := hs.keyShareKeys.ecdhe
+	switch group := hs.serverHello.serverShare.group; group {
+	case X25519MLKEM768, X25519Kyber768Draft00:
+		if hs.uconn != nil && hs.uconn.clientHelloBuildStatus == BuildByUtls && hs.keyShareKeys.mlkemEcdhe != nil {
+			ecdheKey = hs.keyShareKeys.mlkemEcdhe
+		}
+	default:
+		if curve, ok := curveForCurveID(group); ok && (ecdheKey == nil || ecdheKey.Curve() != curve) {
+			for _, k := range hs.keyShareKeys.extraEcdhe {
+				if k.Curve() == curve {
+					ecdheKey = k
+					break
+				}
+			}
+		}
+	}
+	if ecdheKey == nil {
+		c.sendAlert(alertIllegalParameter)
+		return errors.New("tls: server selected a key share the client has no key for")
+	}
+	sharedKey, err := getSharedKey(ecdhePeerData, ecdheKey)
 	// [uTLS] SECTION END
 	if err != nil {
 		c.sendAlert(alertIllegalParameter)
